@@ -13,7 +13,10 @@
                   by a proof the holder - revoked or not - builds without using its witness at all
    hist records every operation with what the specification expects to be observed. *)
 EXTENDS Integers, Sequences, FiniteSets, TLC
-CONSTANTS MaxOps
+CONSTANTS MaxOps,
+          Rollbacks,          \* number of times the holder may reload the state stored at issuance into the credential variable in use
+          RecommitOnMismatch  \* a prepared commitment that does not belong to the present state of the witness is made anew (repair of D63);
+                              \* FALSE: UpdateCommit looks at the index only, the stale commitment goes into the proof
 
 Attacks == {"Cr", "Cu", "beta", "delta", "epsilon", "zeta", "alpha-response", "sacc-older", "sacc-newer", "sacc-otherchain",
             "sacc-garbled", "transplant", "strip", "witness-attr-disclosed",
@@ -30,39 +33,53 @@ Attacks == {"Cr", "Cu", "beta", "delta", "epsilon", "zeta", "alpha-response", "s
 VARIABLES acc,      \* index of the issuer's current accumulator
           accT,     \* time at which the issuer's current signed accumulator was signed (a counter)
           wit,      \* [idx, t, revAt]: index and signing time of the accumulator the witness holds; index of the accumulator that removed it (0 = not revoked)
-          cache,    \* [has, idx]: the credential's cached proof builder and the index it is committed to
-          hist
-vars == <<acc, accT, wit, cache, hist>>
+          cache,    \* [has, idx, stale]: the credential's cached proof builder, the index it is committed to, and whether the witness
+                    \*                    was replaced underneath it (rollback) so that it belongs to another state
+          hist,
+          nroll
+vars == <<acc, accT, wit, cache, hist, nroll>>
+NoCache == [has |-> FALSE, idx |-> 0, stale |-> FALSE]
 
-Init == acc = 0 /\ accT = 0 /\ wit = [idx |-> 0, t |-> 0, revAt |-> 0] /\ cache = [has |-> FALSE, idx |-> 0] /\ hist = <<>>
+Init == acc = 0 /\ accT = 0 /\ wit = [idx |-> 0, t |-> 0, revAt |-> 0] /\ cache = NoCache /\ hist = <<>> /\ nroll = 0
 Log(r) == hist' = Append(hist, r)
 Room == Len(hist) < MaxOps
 
+\* what UpdateCommit makes of the cached builder: refreshed up to wit.idx; made anew when it belongs to another state (repair of D63);
+\* as it was, left alone when its index is not below the witness's
+Usable == ~cache.stale \/ RecommitOnMismatch
 Prepare == /\ Room
-           /\ cache' = [has |-> TRUE, idx |-> wit.idx]        \* new builder at wit.idx, or cached one refreshed up to wit.idx
-           /\ Log([op |-> "prepare", ok |-> TRUE, idx |-> wit.idx, refreshed |-> (cache.has /\ cache.idx < wit.idx)]) /\ UNCHANGED <<acc, accT, wit>>
-RevokeOther == Room /\ acc' = acc + 1 /\ accT' = accT + 1 /\ Log([op |-> "revokeother", ok |-> TRUE, idx |-> acc + 1]) /\ UNCHANGED <<wit, cache>>
-Resign == Room /\ accT' = accT + 1 /\ Log([op |-> "resign", ok |-> TRUE, idx |-> acc]) /\ UNCHANGED <<acc, wit, cache>>
+           /\ cache' = IF cache.has /\ ~Usable THEN cache ELSE [has |-> TRUE, idx |-> wit.idx, stale |-> FALSE]
+           /\ Log([op |-> "prepare", ok |-> TRUE, idx |-> IF cache.has /\ ~Usable THEN cache.idx ELSE wit.idx,
+                   refreshed |-> (cache.has /\ ~cache.stale /\ cache.idx < wit.idx)]) /\ UNCHANGED <<acc, accT, wit, nroll>>
+RevokeOther == Room /\ acc' = acc + 1 /\ accT' = accT + 1 /\ Log([op |-> "revokeother", ok |-> TRUE, idx |-> acc + 1]) /\ UNCHANGED <<wit, cache, nroll>>
+Resign == Room /\ accT' = accT + 1 /\ Log([op |-> "resign", ok |-> TRUE, idx |-> acc]) /\ UNCHANGED <<acc, wit, cache, nroll>>
 RevokeSelf == /\ Room /\ wit.revAt = 0 /\ acc' = acc + 1 /\ accT' = accT + 1 /\ wit' = [wit EXCEPT !.revAt = acc + 1]
-              /\ Log([op |-> "revokeself", ok |-> TRUE, idx |-> acc + 1]) /\ UNCHANGED cache
+              /\ Log([op |-> "revokeself", ok |-> TRUE, idx |-> acc + 1]) /\ UNCHANGED <<cache, nroll>>
 Update == /\ Room
           /\ IF wit.revAt # 0 /\ wit.revAt > wit.idx /\ wit.revAt <= acc
                THEN Log([op |-> "update", ok |-> FALSE, idx |-> wit.idx]) /\ UNCHANGED wit       \* ErrorRevoked, witness unchanged
                ELSE wit' = [wit EXCEPT !.idx = acc, !.t = accT] /\ Log([op |-> "update", ok |-> TRUE, idx |-> acc])   \* also a time-only update
-          /\ UNCHANGED <<acc, accT, cache>>
+          /\ UNCHANGED <<acc, accT, cache, nroll>>
+\* the holder reads the state it stored at issuance (witness at index 0) into the credential variable in use - a backup is restored.
+\* The cached builder, if any, was made for another state of the witness unless that state is the stored one
+Rollback == /\ Room /\ nroll < Rollbacks /\ nroll' = nroll + 1
+            /\ wit' = [wit EXCEPT !.idx = 0, !.t = 0]
+            /\ cache' = [cache EXCEPT !.stale = cache.has /\ (cache.stale \/ cache.idx # 0)]
+            /\ Log([op |-> "rollback", ok |-> TRUE, idx |-> 0]) /\ UNCHANGED <<acc, accT>>
 \* the proof embeds the signed accumulator of the index the witness is at; the cache is consumed
-Prove == /\ Room /\ cache' = [has |-> FALSE, idx |-> 0]
-         /\ Log([op |-> "prove", ok |-> TRUE, idx |-> wit.idx, t |-> wit.t, fromcache |-> cache.has, refreshed |-> (cache.has /\ cache.idx < wit.idx)])
-         /\ UNCHANGED <<acc, accT, wit>>
+Prove == /\ Room /\ cache' = NoCache
+         /\ Log([op |-> "prove", ok |-> (~cache.has \/ Usable), idx |-> wit.idx, t |-> wit.t, fromcache |-> cache.has,
+                 refreshed |-> (cache.has /\ ~cache.stale /\ cache.idx < wit.idx)])
+         /\ UNCHANGED <<acc, accT, wit, nroll>>
 Attack == /\ Room /\ Len(hist) > 0 /\ hist[Len(hist)].op = "prove"
           /\ \E k \in Attacks : Log([op |-> "attack", ok |-> FALSE, idx |-> hist[Len(hist)].idx, kind |-> k])
-          /\ UNCHANGED <<acc, accT, wit, cache>>
-Next == Prepare \/ RevokeOther \/ Resign \/ RevokeSelf \/ Update \/ Prove \/ Attack
+          /\ UNCHANGED <<acc, accT, wit, cache, nroll>>
+Next == Prepare \/ RevokeOther \/ Resign \/ RevokeSelf \/ Update \/ Prove \/ Attack \/ Rollback
 Spec == Init /\ [][Next]_vars
 
 \* C11, model side
 WitnessValidAtOwnIndex == wit.revAt = 0 \/ wit.idx < wit.revAt          \* what an accepted proof states
-CacheNotAhead == cache.has => cache.idx <= wit.idx
+CacheNotAhead == (cache.has /\ ~cache.stale) => cache.idx <= wit.idx
 ReadsTrue == \A i \in 1..Len(hist) : hist[i].op = "prove" => hist[i].idx <= acc /\ hist[i].ok
 NoAttackAccepted == \A i \in 1..Len(hist) : hist[i].op = "attack" => ~hist[i].ok
 =============================================================================
